@@ -165,7 +165,7 @@ def ranges(rnd):
 
 def run(ctx):
     fl = import_library()
-    nparam = ctx.scale(200, 3000)
+    nparam = ctx.scale(200, 10000)
     ctx.rule = (
         "every membership call observed on a shape term with valid parameters: each element compared with the scalar closed form x height "
         "(1e-12; conditioning-aware for Arc/SemiEllipse), range [0,h], NaN iff x is NaN, result shape, array == element-wise (exact), "
